@@ -89,10 +89,65 @@ func roundTrip(n syntax.Node, src, lang string, st *stats, fail func(failure)) (
 	}
 	b2, pan, msg, err := encode(n2)
 	if pan || err != nil || !bytes.Equal(b1, b2) {
-		mk("reencode_differs", fmt.Sprint(msg, err))
-		return b1, false
+		class := ""
+		if !pan && err == nil && hxsyn.HasRecovered(n) && equalModuloDerived(b1, b2) {
+			// KF-C15-1: the tree holds a recovered position and the two encodings differ only in the
+			// derived Pos/End members (a Pos()/End() method compared offsets with the recovered position)
+			class = "recovered_changes_derived_pos_end"
+		}
+		fail(failure{Clause: "reencode_differs", Class: class, Src: src, Lang: lang, Detail: fmt.Sprintf("%T: %s%v first difference at byte %d", n, msg, err, firstByteDiff(b1, b2))})
+		return b1, class != ""
 	}
 	return b1, true
+}
+
+func firstByteDiff(a, b []byte) int {
+	for i := 0; i < len(a) && i < len(b); i++ {
+		if a[i] != b[i] {
+			return i
+		}
+	}
+	return min(len(a), len(b))
+}
+
+// equalModuloDerived reports whether two encodings are the same JSON once every Pos and End
+// member (the results of the Pos()/End() methods; no node field has these names) is removed.
+func equalModuloDerived(a, b []byte) bool {
+	var x, y any
+	if json.Unmarshal(a, &x) != nil || json.Unmarshal(b, &y) != nil {
+		return false
+	}
+	return reflect.DeepEqual(stripDerived(x), stripDerived(y))
+}
+
+func stripDerived(v any) any {
+	switch t := v.(type) {
+	case map[string]any:
+		out := map[string]any{}
+		for k, e := range t {
+			if k == "Pos" || k == "End" {
+				continue
+			}
+			out[k] = stripDerived(e)
+		}
+		return out
+	case []any:
+		out := make([]any, len(t))
+		for i, e := range t {
+			out[i] = stripDerived(e)
+		}
+		return out
+	}
+	return v
+}
+
+// witnesses of KF-C15-1, parsed with RecoverErrors on every run
+var recoverPinned = []string{
+	"P # trailing\n# next\n# next2\n(#i)",
+	"# lead\n\" # t1\n# t2\n",
+	"`foo bar` # trailing\n# next\n# next2\nwhile",
+	"a=b # inline\nbar # trailing\n# next\n# next2\nfoo bar`",
+	"(foo |", "if a; then b", "foo # c\n(", "{ a; # c1\n# c2\n", "case x in a) b ;; # c\n",
 }
 
 func firstDiff(a, b reflect.Value, path string) string {
@@ -396,6 +451,12 @@ func main() {
 					handle(src, hxsyn.LangNames[li]+"+recover", file)
 				})
 			}
+		}
+		for _, src := range recoverPinned {
+			hxsyn.ParseRecover(src, func(li int, file *syntax.File) {
+				st.Recovered++
+				handle(src, hxsyn.LangNames[li]+"+recover", file)
+			})
 		}
 		// pinned: a position whose line and column overflowed keeps its offset
 		{
